@@ -136,8 +136,13 @@ func (f *FibStrategyTree) FindNextHopsEnc(name enc.Name) []*FibNextHopEntry {
 	var nexthops []*FibNextHopEntry
 	for ; curNode != nil; curNode = curNode.parent {
 		if len(curNode.nexthops) > 0 {
+			// Return copies of the entries: the caller reads them after the lock
+			// is released, while updates modify the stored entries in place.
 			nexthops = make([]*FibNextHopEntry, len(curNode.nexthops))
-			copy(nexthops, curNode.nexthops)
+			for i, nh := range curNode.nexthops {
+				nhCopy := *nh
+				nexthops[i] = &nhCopy
+			}
 			break
 		}
 	}
